@@ -1,8 +1,8 @@
 import SJ.Model.Hex
 import SJ.Proofs.Bytes256
-import Std.Tactic.BVDecide
 /-! Helper lemmas for `c05_hex4_spec`: per-byte table facts (256 entries, by evaluation) and the
-    combination lemma on `BitVec 32` (the sign-bit trick), by `bv_decide`. -/
+    combination lemma on `BitVec 32` (the sign-bit trick), by `toNat` arithmetic (disjoint bits: `|||` is `+`)
+    and `msb` of `|||`/`<<<` — kernel-checked, no `bv_decide` axiom. -/
 namespace SJ.Proofs.Hex
 open SJ SJ.Model.Hex
 
@@ -34,20 +34,60 @@ theorem lookup_none {x : UInt8} (h : hexDigitVal x = none) :
   simp only [byteOk, h, Bool.and_eq_true, beq_iff_eq] at this
   exact this
 
+/-- `a ||| b = a + b` when `a` is a multiple of `2 ^ n` and `b < 2 ^ n` (disjoint bits) -/
+theorem nat_or_eq_add (a b n : Nat) (ha : a % 2 ^ n = 0) (hb : b < 2 ^ n) : a ||| b = a + b := by
+  have h : a = (a / 2 ^ n) <<< n := by
+    rw [Nat.shiftLeft_eq]; have := Nat.div_add_mod a (2 ^ n); rw [ha, Nat.mul_comm] at this; omega
+  rw [h, Nat.shiftLeft_add_eq_or_of_lt hb]
+
 /-- four digit values: the OR/shift combination is the positional value, and it is non-negative -/
 theorem comb_some (x y z w : BitVec 32) (hx : x < 16#32) (hy : y < 16#32) (hz : z < 16#32) (hw : w < 16#32) :
     BitVec.sle 0#32 ((((x <<< 4) ||| y) <<< 8) ||| (z <<< 4) ||| w) = true ∧
     ((((x <<< 4) ||| y) <<< 8) ||| (z <<< 4) ||| w) = x * 4096#32 + y * 256#32 + z * 16#32 + w := by
-  bv_decide
+  have hx' : x.toNat < 16 := hx
+  have hy' : y.toNat < 16 := hy
+  have hz' : z.toNat < 16 := hz
+  have hw' : w.toNat < 16 := hw
+  have hx4 : (x <<< 4).toNat = x.toNat * 16 := by
+    rw [BitVec.toNat_shiftLeft, Nat.shiftLeft_eq]; omega
+  have hz4 : (z <<< 4).toNat = z.toNat * 16 := by
+    rw [BitVec.toNat_shiftLeft, Nat.shiftLeft_eq]; omega
+  have h1 : ((x <<< 4) ||| y).toNat = x.toNat * 16 + y.toNat := by
+    rw [BitVec.toNat_or, hx4]; exact nat_or_eq_add _ _ 4 (by omega) (by omega)
+  have h1s : (((x <<< 4) ||| y) <<< 8).toNat = x.toNat * 4096 + y.toNat * 256 := by
+    rw [BitVec.toNat_shiftLeft, Nat.shiftLeft_eq, h1]; omega
+  have h2 : ((((x <<< 4) ||| y) <<< 8) ||| (z <<< 4)).toNat = x.toNat * 4096 + y.toNat * 256 + z.toNat * 16 := by
+    rw [BitVec.toNat_or, h1s, hz4]; exact nat_or_eq_add _ _ 8 (by omega) (by omega)
+  have hv : (((((x <<< 4) ||| y) <<< 8) ||| (z <<< 4)) ||| w).toNat
+      = x.toNat * 4096 + y.toNat * 256 + z.toNat * 16 + w.toNat := by
+    rw [BitVec.toNat_or, h2]; exact nat_or_eq_add _ _ 4 (by omega) (by omega)
+  constructor
+  · rw [BitVec.zero_sle_eq_not_msb, BitVec.msb_eq_decide, hv]
+    simp only [Bool.not_eq_eq_eq_not, Bool.not_true, decide_eq_false_iff_not]
+    omega
+  · apply BitVec.eq_of_toNat_eq
+    rw [hv]
+    simp only [BitVec.toNat_add, BitVec.toNat_mul, BitVec.toNat_ofNat]
+    omega
 
+set_option linter.unusedVariables false in
 /-- the sign-bit trick: if any of the four looked-up values is `-1`, the combination is negative
-    (whatever the others are, as long as they are table values: `-1` or below `0x100`) -/
+    (whatever the others are, as long as they are table values: `-1` or below `0x100`).
+    Bit 31 of the result is the OR of bit 23 of `a`, bit 23 of `b`, bit 31 of `c` and bit 31 of `d`,
+    so one `-1` suffices; the range hypotheses are not needed (kept: the statement is unchanged). -/
 theorem comb_neg (a b c d : BitVec 32)
     (ha : a = BitVec.allOnes 32 ∨ a < 0x100#32) (hb : b = BitVec.allOnes 32 ∨ b < 0x100#32)
     (hc : c = BitVec.allOnes 32 ∨ c < 0x100#32) (hd : d = BitVec.allOnes 32 ∨ d < 0x100#32)
     (h : a = BitVec.allOnes 32 ∨ b = BitVec.allOnes 32 ∨ c = BitVec.allOnes 32 ∨ d = BitVec.allOnes 32) :
     BitVec.sle 0#32 (((a ||| b) <<< 8) ||| c ||| d) = false := by
-  bv_decide
+  rw [BitVec.zero_sle_eq_not_msb, BitVec.msb_or, BitVec.msb_or, BitVec.msb_shiftLeft, BitVec.getMsbD_or]
+  have h1 : (BitVec.allOnes 32).getMsbD 8 = true := by decide
+  have h2 : (BitVec.allOnes 32).msb = true := by decide
+  rcases h with h | h | h | h
+  · rw [h, h1]; rfl
+  · rw [h, h1, Bool.or_true]; rfl
+  · rw [h, h2, Bool.or_true]; rfl
+  · rw [h, h2, Bool.or_true]; rfl
 
 /-- every table value, seen as `i32`, is `-1` or below `0x100` -/
 def rangeOk (x : UInt8) : Bool :=
